@@ -64,7 +64,7 @@ type upSource struct {
 	maxLive int
 	subs    []*upSub
 	pre     [][]Tok
-	yield   int // concurrent variants: Gosched this many times inside Subscribe (widens races)
+	yield   int    // concurrent variants: Gosched this many times inside Subscribe (widens races)
 	inside  func() // nested events: run once, inside the next Subscribe, after the prefix
 	strict  bool   // concurrent kinds: never push to a subscription that is over
 }
@@ -562,15 +562,15 @@ func innerSeqs(n int) []string {
 var shareCorpus = [][4]string{
 	// api, conn, flags, pre, ev  (pre folded into the 4th field as pre|ev)
 	{"share", "publish", "ECZ", "-|S,S,N1,N2,U0,N3,U1,S,N4"},
-	{"share", "publish", "ECZ", "N1,N2,C|S,S"},                  // Share over Just(1,2): was the nil dereference (fix a510ca9)
-	{"config", "publish", "ECZ", "C;-|S,S,U1,N1"},               // was the refCount leak after the nil dereference
-	{"sharereplay2", "replay2", "E", "-|S,N1,N2,N3,S,C,S"},      // ShareReplay(2)
-	{"sharereplayZ1", "replay1", "EZ", "-|S,N1,U0,S,N2"},        // ShareReplayWithConfig
+	{"share", "publish", "ECZ", "N1,N2,C|S,S"},             // Share over Just(1,2): was the nil dereference (fix a510ca9)
+	{"config", "publish", "ECZ", "C;-|S,S,U1,N1"},          // was the refCount leak after the nil dereference
+	{"sharereplay2", "replay2", "E", "-|S,N1,N2,N3,S,C,S"}, // ShareReplay(2)
+	{"sharereplayZ1", "replay1", "EZ", "-|S,N1,U0,S,N2"},   // ShareReplayWithConfig
 	{"config", "behavior", "Z", "-|S,N1,S,E2,S"},
 	{"config", "replayU", "-", "-|S,N1,N2,C,S,S"},
 	{"config", "replay0", "ECZ", "-|S,N1,S,N2"},
-	{"config", "publish", "Z", "N1|S,S,N2,U0,U1,S"},             // synchronous value, then hot
-	{"config", "replay2", "C", "N1,E1|S,S"},                     // sync error, not reset: latched
+	{"config", "publish", "Z", "N1|S,S,N2,U0,U1,S"}, // synchronous value, then hot
+	{"config", "replay2", "C", "N1,E1|S,S"},         // sync error, not reset: latched
 }
 
 func genShare(tier string, seed int64, only string) []*Case {
@@ -745,10 +745,11 @@ func genConn(tier string, seed int64, only string) []*Case {
 // (subscribe, wait until it has seen `hold` values or the stream ended, unsubscribe), one source
 // goroutine pushing N1,N2,… to whatever is live and optionally ending with a terminal that the
 // configuration resets on. Checked on the implementation:
-//   maxlive ≤ 1            never two live upstream subscriptions
-//   per subscriber          values strictly increasing (no duplicate, no reordering), contiguous
-//                           within one upstream execution, at most one terminal and nothing after it
-//   after everything left   live = 0 when ResetOnRefCountZero and no terminal was latched
+//
+//	maxlive ≤ 1            never two live upstream subscriptions
+//	per subscriber          values strictly increasing (no duplicate, no reordering), contiguous
+//	                        within one upstream execution, at most one terminal and nothing after it
+//	after everything left   live = 0 when ResetOnRefCountZero and no terminal was latched
 func genShareConc(tier string, seed int64, only string) []*Case {
 	r := rand.New(rand.NewSource(seed))
 	n := 60
@@ -804,7 +805,7 @@ func runShareConcCase(c *Case) string {
 	var all []*concRec
 	var allMu sync.Mutex
 	var stop int32
-	var nilDerefs int32 // recovered nil dereferences of Share's `sourceSubscription` seen in this case
+	var nilDerefs int32  // recovered nil dereferences of Share's `sourceSubscription` seen in this case
 	var termInside int32 // subscribers that received their terminal before their own Subscribe call returned
 	var wg sync.WaitGroup
 	var problems []string
